@@ -349,6 +349,41 @@ def run_scenario(tag):
         return {"script": os.path.relpath(sc, VERIF), "built": True, "exit": None, "exhibits_failure": False, "output": "scenario timed out"}
 
 
+def bounded_stand_in(pid, seed, why):
+    """DESIGN 16: the finite family of concrete projects / operation sequences of this property, run against a binary
+    built from the current tree.  Returns (info for the evidence, [(case record, replay path)])."""
+    if os.environ.get("ZV_NO_BOUNDED"):
+        return {"ran": False, "reason": "disabled (ZV_NO_BOUNDED)"}, []
+    sys.path.insert(0, os.path.join(VERIF, "bounded"))
+    import run as brun
+    t0 = time.time()
+    binary, err = brun.build_binary(zv.REPO)
+    if not binary:
+        return {"ran": False, "reason": "the current tree does not build: " + err[-400:]}, []
+    r = brun.run(pid, binary, seed)
+    confirmed = []
+    for rec in r["failed"][:4]:
+        # a failing case counts only if it fails again when run alone (no load from the other cases)
+        again = brun.run(pid, binary, seed, only=rec["case"], workers=1)
+        if any(x["case"] == rec["case"] for x in again["failed"]):
+            confirmed.append(rec)
+        else:
+            rec["not_reproduced_when_run_alone"] = True
+    out = []
+    rdir = os.environ.get("ZV_REPLAY", os.path.join(VERIF, "replay"))
+    os.makedirs(rdir, exist_ok=True)
+    for rec in confirmed:
+        path = os.path.join(rdir, "%s-bounded-%s.json" % (pid, re.sub(r"[^A-Za-z0-9_.-]", "_", rec["case"])))
+        json.dump({"property": pid, "obligation": "none decided: " + why, "bounded_stand_in_case": rec,
+                   "how_found": "bounded stand-in (bounded/run.py): a concrete project and operation sequence run against the binary built from the current tree; failed twice (in the family run and alone)",
+                   "no_failing_input_found": False,
+                   "replay_cmd": "python3 bounded/run.py %s --case '%s'" % (pid, rec["case"])}, open(path, "w"), indent=1)
+        out.append((rec, path))
+    info = {k: r[k] for k in ("label", "families", "cases", "passed", "bound", "sample_cases", "harness_errors", "failed_for_other_properties")}
+    info.update({"ran": True, "why": why, "failed_cases": [x["case"] for x in confirmed], "flaky_cases": [x["case"] for x in r["failed"] if x.get("not_reproduced_when_run_alone")], "wall_s": round(time.time() - t0, 1)})
+    return info, out
+
+
 def write_replay(pid, tag, unit, d, res, witness):
     rdir = os.environ.get("ZV_REPLAY", os.path.join(VERIF, "replay"))
     os.makedirs(rdir, exist_ok=True)
@@ -419,7 +454,14 @@ def main(argv):
                     vac[u] = (0, [{"n": -1, "where": "vacuity run failed: %s" % str(e)[:300]}])
     except zv.Undecided as e:
         print("UNDECIDED: %s" % e)
-        return 2
+        binfo, bfail = bounded_stand_in(pid, seed, "undecided: %s" % str(e)[:300])
+        evdir = os.environ.get("ZV_EVIDENCE", os.path.join(VERIF, "evidence"))
+        os.makedirs(evdir, exist_ok=True)
+        json.dump({"property_id": pid, "tier": tier, "seed": seed, "level": "proof", "coverage": {"obligations": 0, "discharged": 0, "checker_cmd": "", "trusted_base": [], "undecided": [str(e)[:600]], "bounded_stand_in": binfo, "explanation": "the deductive run did not get as far as generating obligations on this tree (undecided); only the bounded stand-in ran"}, "assumptions": [], "wall_s": round(time.time() - t0, 2), "violations": len(bfail)}, open(os.path.join(evdir, pid + ".json"), "w"), indent=1)
+        for (rec, path) in bfail:
+            print("bounded stand-in case %s failed: expected %s; observed %s" % (rec["case"], rec.get("expected", "")[:300], str(rec.get("observed", ""))[:300]))
+            print("VIOLATION property=%s replay=%s" % (pid, path))
+        return 1 if bfail else 2
 
     cl = classify(pid, results)
     undecided = list(cl["undecided"])
@@ -518,6 +560,11 @@ def main(argv):
         path, rec = write_replay(pid, tag, unit, d, results.get(unit) or next(iter(results.values()), None) or zv.UnitResult(unit), witness)
         replay_paths.append((tag, path, rec))
 
+    # ---- bounded stand-in (DESIGN 16): when the deductive verdict is undecided, and always in the thorough tier ----
+    binfo, bfail = {"ran": False, "reason": "the deductive verdict is decided on this tree (quick tier)"}, []
+    if (undecided and not violations) or tier == "thorough":
+        binfo, bfail = bounded_stand_in(pid, seed, ("undecided: " + "; ".join(undecided)[:400]) if undecided else "thorough tier")
+
     # ---- evidence -------------------------------------------------------------------------------
     fns = []
     rule_counts = {}
@@ -557,7 +604,8 @@ def main(argv):
             "samples": cl["samples"],
             "undecided": undecided,
             "stability_reruns": stability,
-            "bounded_stand_in": kani_info,
+            "bounded_stand_in": binfo,
+            "kani": kani_info,
             "degraded_functions": {u: r.degraded for u, r in results.items() if getattr(r, "degraded", None)},
             "vacuity_probes": {u: {"probes": n, "proved_unreachable": [p["where"] for p in un]} for u, (n, un) in vac.items()},
             "evaluations": (sum((i.get("checks") or 1) for i in kani_info["harnesses"].values()) if kani_info else cl["obligations"]),
@@ -567,7 +615,7 @@ def main(argv):
         },
         "assumptions": [props.ASSUME[a] for a in P.get("assume", [])] + P.get("not_covered", []),
         "wall_s": round(time.time() - t0, 2),
-        "violations": len(violations),
+        "violations": len(violations) + len(bfail),
         "known_findings_reported": known_out,
     }
     evdir = os.environ.get("ZV_EVIDENCE", os.path.join(VERIF, "evidence"))
@@ -584,7 +632,10 @@ def main(argv):
         want = load_json(replay, {}).get("obligation")
         still = [t for (t, _, _) in violations if t == want]
         print("replay of %s: obligation %s %s" % (replay, want, "still fails" if still else "is discharged now"))
-    if violations:
+    for (rec, path) in bfail:
+        print("bounded stand-in case %s failed: expected %s; observed %s" % (rec["case"], rec.get("expected", "")[:300], str(rec.get("observed", ""))[:300]))
+        print("VIOLATION property=%s replay=%s" % (pid, path))
+    if violations or bfail:
         return 1
     if undecided:
         for u in undecided[:12]:
